@@ -35,6 +35,7 @@ func allCases() []copyCase {
 	cs = append(cs, mpCases()...)
 	cs = append(cs, btpCases()...)
 	cs = append(cs, rpCases()...)
+	cs = append(cs, moreCases()...)
 	return cs
 }
 
